@@ -1881,3 +1881,40 @@ def c_ref_eq(m, st, f, a):
     if not (isinstance(x, Ref) and isinstance(y, Ref)): return NotImplemented
     m.call_fn(st, inner, [x, y], m.cur_ret)
     return PUSHED
+
+
+# ---------------------------------------------------------------------------------------------- std::path (text-level semantics on unix)
+@contract(r'^(std::path::)?Path::new::<', 3)
+def c_path_new(m, st, f, a): return as_str(a[0])
+
+
+@contract(r'^(std::path::)?(Path|PathBuf)::join::<', 3)
+def c_path_join(m, st, f, a):
+    x, y = as_str(a[0]), as_str(a[1])
+    if y.len and bool_val(m, st, byte_eq(y.byte(0), 47)): return y          # an absolute path replaces the base
+    xb = list(x.bytes())
+    if xb and not bool_val(m, st, byte_eq(xb[-1], 47)): xb.append(47)
+    return StrV(tuple(xb) + tuple(y.bytes()))
+
+
+@contract(r'^(std::path::)?(Path|PathBuf)::(to_string_lossy|as_os_str|to_str|display|as_path)$|^<(std::path::)?PathBuf as Deref>::deref$', 3)
+def c_path_to_string(m, st, f, a):
+    s = as_str(a[0])
+    if f.endswith('to_string_lossy'): return Enum('Cow', 0, {0: Agg([s])})
+    if f.endswith('to_str'): return some(s)
+    return s
+
+
+@contract(r'^DashMap::<.*>::iter$', 2)
+def c_dm_iter(m, st, f, a):
+    _sched(m, st, 'dm_iter', a[0])
+    dm = _dm(a[0])
+    return Iter([Agg([k, Ref(c)], 'RefMulti') for k, c in dm.entries])
+
+
+@contract(r'^(dashmap::)?mapref::multiple::RefMulti(Mut)?::<.*>::(value|key|pair)$', 2)
+def c_dm_refmulti(m, st, f, a):
+    e = sv(a[0])
+    if f.endswith('::key'): return Ref(Cell(e.f[0]))
+    if f.endswith('::pair'): return Agg([Ref(Cell(e.f[0])), e.f[1]])
+    return e.f[1]
